@@ -53,7 +53,19 @@ fn gen_pair(rng: &mut Rng) -> Pair {
         // selected alternative / class field. The target itself contains no reference of that kind.
         let v = *rng.pick(&[9i64, 200, 70000]);
         let lv = format!("@Lv0 INTEGER ::= {v}\n");
-        return match rng.below(9) {
+        return match rng.below(10) {
+            9 => {
+                // the referenced type is recursive in itself (its member needs a Box *there*); the including type is not on that
+                // cycle, its copy of the member is an ordinary reference
+                let (hs, he) = *rng.pick(&[("SEQUENCE { hq0 INTEGER, next @HTs OPTIONAL }", "hq0 INTEGER, next @HTs OPTIONAL"), ("SEQUENCE { hq0 BOOLEAN, alt CHOICE { deeper @HTs, leaf NULL } }", "hq0 BOOLEAN, alt CHOICE { deeper @HTs, leaf NULL }")]);
+                Pair {
+                    family: "components-of",
+                    class: "SEQUENCE,position=last,referenced-type-is-recursive".into(),
+                    helpers: format!("@HTs ::= {hs}\n"),
+                    sugared: "Tq1 ::= SEQUENCE { fq0 NULL, COMPONENTS OF @HTs }\n".into(),
+                    expanded: format!("Tq1 ::= SEQUENCE {{ fq0 NULL, {he} }}\n"),
+                }
+            }
             8 => {
                 // two instantiations whose type arguments are the same built-in type under different constraints (and equal
                 // value arguments): each instance gets its own argument
